@@ -4,7 +4,7 @@
 set -u
 ID="$1"; TIER="${2:-quick}"
 export GOFLAGS=-mod=mod GOPROXY=off GOSUMDB=off GOTOOLCHAIN=local
-V=/verif
+V="$(dirname "$(dirname "$(readlink -f "$0")")")"
 mkdir -p $V/.cache/go-build
 if [ ! -x $V/bin/gosmt ] || [ -n "$(find $V/engine -name '*.go' -newer $V/bin/gosmt 2>/dev/null | head -1)" ]; then
   (cd $V/engine && go build -o $V/bin/gosmt .) || { echo "ENGINE-INCONCLUSIVE property=$ID: engine build failed"; exit 2; }
